@@ -144,6 +144,12 @@ func runC03TwoWriters(c *core.Case, k int) {
 			bDone <- B.RunWALTx(spec())
 		}()
 		sa := spec()
+		byClose := k%4 == 3 && round%2 == 0
+		if byClose {
+			// the first connection does not unlock: its process ends (descriptors
+			// closed while it holds the write lock); the capture happens at that release
+			sa.ReleaseByClose = true
+		}
 		ra := A.RunWALTx(sa)
 		var rb pager.TxResult
 		select {
@@ -156,7 +162,7 @@ func runC03TwoWriters(c *core.Case, k int) {
 		<-started
 		n.OS.SetHook(nil)
 		imgB := d.M
-		hist = append(hist, fmt.Sprintf("round %d: A commits %d frames (%d pages), B commits (%d pages), gate %s hit=%v", round, len(sa.Frames), imgA.PageN, imgB.PageN, gateOp, fired.Load()))
+		hist = append(hist, fmt.Sprintf("round %d: A commits %d frames (%d pages, released by close: %v), B commits (%d pages), gate %s hit=%v", round, len(sa.Frames), imgA.PageN, byClose, imgB.PageN, gateOp, fired.Load()))
 		detail := map[string]any{"page_size": ps, "gate": gateOp, "history": hist, "before": prev.String(), "after": mon.PosOf(n, "db").String()}
 		ctx := fmt.Sprintf("two-writers round %d", round)
 		c.Count("programs", 2)
@@ -191,6 +197,18 @@ func runC03TwoWriters(c *core.Case, k int) {
 		judgeRawChecksum(c, n, "db", ctx, detail)
 		c.Count("two_writer_rounds", 1)
 		c.Count("ltx_decoded", 2)
+		if byClose {
+			c.Count("two_writer_rounds_released_by_close", 1)
+			var err error
+			if A, err = d.Open(1); err == nil {
+				err = A.OpenWAL()
+			}
+			if err != nil {
+				c.Violate("C03/op-refused/reopen", "reopening the database after the writer's descriptors were closed: "+err.Error(), detail)
+				return
+			}
+			defer A.Close()
+		}
 		if round%2 == 1 {
 			// a checkpoint now and then so the log restarts
 			if r := A.RunCheckpoint(pager.CheckpointSpec{Kind: "passive"}); r.Err != nil {
